@@ -60,13 +60,55 @@ class SwapN(enum.Enum):
     C = "C"
 
 
+# Enum classes with a data-type MIX-IN: a member IS an int / float / str, takes its truthiness from that type (LevelIV.OFF
+# is falsy although it is a member) and compares equal to its value (LevelIV.OFF == 0).  The value model's == does not
+# say so, therefore these classes occur only in the streams judged on the implementation (the "serializable-leaves"
+# worlds and their lattice), never in the Coq correspondence.
+class LevelIV(enum.IntEnum):
+    OFF = 0
+    LOW = 1
+    HIGH = 2
+
+
+class LevelIN(enum.IntEnum):
+    OFF = 0
+    LOW = 1
+    HIGH = 2
+
+
+class RatioFV(float, enum.Enum):
+    ZERO = 0.0
+    HALF = 0.5
+
+
+class RatioFN(float, enum.Enum):
+    ZERO = 0.0
+    HALF = 0.5
+
+
+class TagSV(str, enum.Enum):
+    EMPTY = ""
+    A = "alpha"
+    B = "B"
+
+
+class TagSN(str, enum.Enum):
+    EMPTY = ""
+    A = "alpha"
+    B = "B"
+
+
+MIXIN_ENUMS = [(LevelIV, True), (LevelIN, False), (RatioFV, True), (RatioFN, False), (TagSV, True), (TagSN, False)]
+MIXIN_NAMES = [c.__name__ for c, _ in MIXIN_ENUMS]
+STR_MIXIN = ("TagSV", "TagSN")
+
 NEW_ENUMS = [(PrioV, True), (PrioN, False), (SuffixV, True), (FlagV, True), (RatioV, True), (SwapV, True), (SwapN, False)]
-for _cls, _bv in NEW_ENUMS:
+for _cls, _bv in NEW_ENUMS + MIXIN_ENUMS:
     SG.register_enum(_cls, _bv)
 
 ENUM_NAMES = ["Color", "Size", "ColorV", "SizeV"] + [c.__name__ for c, _ in NEW_ENUMS]
 
-IMPORTS = (SG.IMPORTS + "from harness.c05ext import %s\n" % ", ".join(c.__name__ for c, _ in NEW_ENUMS) +
+IMPORTS = (SG.IMPORTS + "from harness.c05ext import %s\n" % ", ".join(c.__name__ for c, _ in NEW_ENUMS + MIXIN_ENUMS) +
            "import datetime\nfrom typedpy import DecimalNumber, DateField, DateTime\nfrom typedpy.extfields import TimeField\n")
 
 
@@ -168,7 +210,7 @@ def x_scalar(rnd, ext=False, simple=False):
         vals = rnd.sample(pool, rnd.randint(1, 4))
         vals = G.dedup([E.reify(v) for v in vals])
         return {"t": "enumlit", "values": vals}
-    cname = rnd.choice(ENUM_NAMES)
+    cname = rnd.choice(MIXIN_NAMES if ext and rnd.random() < 0.45 else ENUM_NAMES)
     names = [m.name for m in G.ENUMS[cname]]
     if rnd.random() < 0.25 and len(names) > 1:
         names = sorted(rnd.sample(names, rnd.randint(1, len(names) - 1)), key=names.index)
@@ -668,6 +710,13 @@ def lattice_leaves(ext):
             ({"t": "num", "k": "Integer", "s": "Any"}, [I(0), I(7)]),
             ({"t": "bool"}, [("bool", False)]),
             ({"t": "decimal"}, [("dec", 0, 0), E.reify(decimal.Decimal("12.5")), E.reify(decimal.Decimal("0.1"))]),
+        ]
+        for cname in MIXIN_NAMES:
+            cls = G.ENUMS[cname]
+            # a member of a str mix-in cannot be passed as an object (C08-str-mixin-enum-deser): it is given by name
+            out.append((_enum_decl(cname), [("str", m.name) if cname in STR_MIXIN else E.reify(m) for m in cls]))
+        out.append((_enum_decl("LevelIV", ["OFF", "HIGH"]), [E.reify(LevelIV.OFF)]))
+        out += [
             ({"t": "date", "k": "date", "custom": False}, [("other", "date", "2020-01-31"), ("other", "date", "1999-12-01")]),
             ({"t": "date", "k": "date", "custom": True}, [("other", "date", "2001-02-03")]),
             ({"t": "date", "k": "datetime", "custom": True}, [("other", "datetime", "2020-01-31T00:00:00"),
